@@ -2,7 +2,7 @@
 SPECIFICATION TSpec
 CONSTANTS
   Devs = {"FirstFromOnly"}
-  Families = {"A", "B"}
+  Families = {"A", "B", "C"}
   Gen = FALSE
 CHECK_DEADLOCK FALSE
 POSTCONDITION Post
